@@ -80,7 +80,32 @@ Definition run_dis (g : graph) (kinds : string) (oms : list (list Z * option Z))
       append "x=" (bs (exists_disjoint_assignment n cutoff bgroups
                          (filter (fun r : breq => memZ (b_id r) grouped_ids) brqs)))
     else "x=-"%string in
-  join "|" [d_s; a_s; o_s; f_s; v_s; x_s].
+  (* a batch made of one pair group: the include clause of C11 for the members of a vector.  exA = a disjoint pair
+     exists in which BOTH lists (LOOSE hops included) are crossed; exS = one exists crossing the STRICT lists;
+     then per member whether the returned route crosses its whole list *)
+  let w_s :=
+    match declared with
+    | [d] =>
+        match members d with
+        | [[a]; [b]] =>
+            match find_rq rqs a, find_rq rqs b with
+            | Some ra, Some rb =>
+                append "w=" (join "," [bs (exists_disjoint_pair n (d_src ra) (d_dst ra) (d_inc ra)
+                                                                 (d_src rb) (d_dst rb) (d_inc rb) cutoff);
+                                       bs (exists_disjoint_pair n (d_src ra) (d_dst ra) (eff_inc ra)
+                                                                 (d_src rb) (d_dst rb) (eff_inc rb) cutoff);
+                                       match obs with
+                                       | DPaths ps => append (bs (route_ok g (d_src ra) (d_dst ra) (d_inc ra) (serving ps a)))
+                                                             (bs (route_ok g (d_src rb) (d_dst rb) (d_inc rb) (serving ps b)))
+                                       | _ => "-"%string
+                                       end])
+            | _, _ => "w=-"%string
+            end
+        | _ => "w=-"%string
+        end
+    | _ => "w=-"%string
+    end in
+  join "|" [d_s; a_s; o_s; f_s; v_s; x_s; w_s].
 
 (* isdisjoint helper on raw integer lists *)
 Definition run_isdisjoint (cases : list (list Z * list Z)) : string :=
